@@ -22,6 +22,9 @@ RETIRE_STEPS = 7   # head, next (NULL), out, in, out, out := 0, sub_and_fetch
 DMAX = 3000
 
 
+L_REST = 3900     # search mode: byte b of the work_queue_t = 3900 + b (bytes registered otherwise keep their locs)
+
+
 def parse_case(case):
     v = [int(x) for x in case.split()]
     nthreads = v[1 + v[0]]
@@ -40,6 +43,9 @@ def monitor(case, tr, raw):
     get_work."""
     if tr is None:
         return "implementation produced no trace: %s" % (raw or "")[:80]
+    # search mode (RT_CATCHALL=1): accesses to bytes of the object(s) that have no location of their own are
+    # scheduling points, not events of the protocol judged here
+    tr = [e for e in tr if e[1] < L_REST or e[2] in (909, 919)]
     progs = parse_case(case)
     nthreads = len(progs)
     allitems = [a for p in progs for a in p]
@@ -198,11 +204,12 @@ def search(ctx, exe):
         cases = gen_cases(rng_ctx, "thorough")[:40000]
     finally:
         rng_ctx.cleanup()
-    impl = core.run_sharded([exe], cases)
+    # RT_CATCHALL: every byte of the work_queue_t is a scheduling point (fields the model does not know included)
+    impl = core.run_sharded(["env", "RT_CATCHALL=1", exe], cases)
     for c, line in zip(cases, impl):
         why = core.safe_monitor(monitor, c, core.parse_trace(line) if line is not None else None, line)
         if why:
-            core.report_violation(ctx, "wq", c, why, line)
+            core.report_violation(ctx, "wq+catchall", c, why, line)
             if len(ctx.violations) >= 3:
                 break
 
@@ -222,6 +229,11 @@ def replay(ctx, payload):
     if not exe or not c:
         print("nothing to replay (no concrete case in this file)")
         return 2
+    if str(payload.get("harness", "")).endswith("+catchall"):
+        impl = core.run_sharded(["env", "RT_CATCHALL=1", exe], [c])[0]
+        why = core.safe_monitor(monitor, c, core.parse_trace(impl) if impl is not None else None, impl)
+        print("case:  %s\nimpl (every byte of the object a scheduling point):  %s\nmonitor: %s" % (c, impl, why or "ok"))
+        return 1 if why else 0
     impl = core.run_sharded([exe], [c])[0]
     mod = core.model_run("workqueue", [c])[0]
     why = monitor(c, core.parse_trace(impl), impl)
